@@ -598,10 +598,10 @@ func (g *Gen) genLeafIO() (Op, bool) {
 	}
 	if len(stale) > 0 && (len(live) == 0 || g.chance(0.25)) {
 		l := stale[g.R.IntN(len(stale))]
-		return Op{K: []string{"LeafOpenSelf", "LeafGetAttributes", "LeafUpload", "LeafOpenReadFrozen"}[g.R.IntN(4)], L: l.ID}, true
+		return Op{K: []string{"LeafOpenSelf", "LeafGetAttributes", "LeafUpload", "LeafOpenReadFrozen", "LeafPersistency"}[g.R.IntN(5)], L: l.ID}, true
 	}
 	l := live[g.R.IntN(len(live))]
-	ks := []string{"LeafOpenSelf", "LeafGetAttributes", "LeafSetAttributes", "LeafIO", "LeafIO", "LeafUpload", "LeafOpenReadFrozen"}
+	ks := []string{"LeafOpenSelf", "LeafGetAttributes", "LeafSetAttributes", "LeafIO", "LeafIO", "LeafUpload", "LeafOpenReadFrozen", "LeafPersistency"}
 	return Op{K: ks[g.R.IntN(len(ks))], L: l.ID, Trunc: g.chance(0.3), FailIO: g.chance(0.35), Salt: g.R.Uint64()}, true
 }
 
